@@ -21,6 +21,10 @@ META = {
         "QVerif.Pipeline.estimator_evaluate_spec",
         "QVerif.Pipeline.estimator_evaluate_at",
         "QVerif.Pipeline.transpileSampler_sound",
+        "QVerif.Pipeline.sampler_evaluateS_spec",
+        "QVerif.Pipeline.quasi_mass_one",
+        "QVerif.Pipeline.transpileSPub_sound",
+        "QVerif.Pipeline.override_shots_is_wrong",
         "QVerif.Pipeline.transpileEstimator_sound",
         "QVerif.Pipeline.layout_invariance",
         "QVerif.Pipeline.op_layout_invariance",
@@ -36,7 +40,9 @@ META = {
         "Runner.C06_slice_is_own_results",
     ],
     "level": "proof",
-    "level_text": "Partial proof. Proved (Model/Pipeline.lean): (1) any stack of transpiling / mutex / batching wrappers around an ideal primitive (result i a function of pub i) "
+    "level_text": "Partial proof. Proved (Model/Pipeline.lean): (0) shot counts travel with the pubs — through every sound stack, whatever other callers with whatever shot counts "
+    "share a batch, value i is the aggregation of a probability distribution (non-negative, mass one: the hypotheses of the C14 theorems) when the sampler honours each pub's shots "
+    "(sampler_evaluateS_spec, quasi_mass_one; witness override_shots_is_wrong); (1) any stack of transpiling / mutex / batching wrappers around an ideal primitive (result i a function of pub i) "
     "is again ideal with the same answers whenever each rewriting preserves a pub's answer, whatever other callers put into a batch (stack_pointwise; the batching "
     "wrapper's internals are C06's theorems); (2) for all three evaluator kinds, value i is the objective of (initial state o circuit i) with parameter vector i — every "
     "batch position (…_evaluate_spec/_at; the objective from counts is C14's model); (3) the estimator wrapper's re-layout: a Pauli operator laid out with the FINAL index "
@@ -545,8 +551,18 @@ def one_case(ctx, rng, kind, stack, classical, tag, second_round=None):
             pj = next((j for j, p in enumerate(ps) if sorted(p) == sorted(vals)), None)
             seen.append([sym, pj])
         ctx.compare("pipeline.evaluate (pubs reaching the primitive)", inp, seen, r.get("pubs"))
-    if "batching" in stack and not stack.startswith("T:"):
-        pass  # slices are compared below through result metadata for every batching stack
+    if is_sampler:
+        # (a') the shot count with which every pub reaches the primitive (the evaluator divides the counts by its own shots)
+        seen_shots = [[None] * len(cs) for cs, _ in callers]
+        for batch in first_batches:
+            for pub in batch:
+                vals = sorted(float(x) for x in np.asarray(pub.parameter_values.as_array()).ravel())
+                for ci, (cs, ps) in enumerate(callers):
+                    for j, pv in enumerate(ps):
+                        if sorted(pv) == vals and seen_shots[ci][j] is None:
+                            seen_shots[ci][j] = pub.shots
+        r = drv.ask({"op": "pipeline.batch_shots", "callers": [{"n": len(cs), "shots": shots_of[ci]} for ci, (cs, _) in enumerate(callers)]})
+        ctx.compare("pipeline.batch_shots (shot count of every pub reaching the primitive)", inp, seen_shots, r.get("shots"))
     if kind == "estimator" and classical and stack.startswith("T:") and ">" not in stack:
         # (c) the observable submitted with each transpiled circuit, the value, the physical placement
         flat = [(qc, p) for cs, ps in callers for qc, p in zip(cs, ps)]
